@@ -1,7 +1,7 @@
 (* C47 -- property theorems only.  Each closed by [exact]; Print Assumptions beneath. *)
 From Coq Require Import List ZArith Bool.
 Import ListNotations.
-Require Import V.C47.Model V.C47.Proofs.
+Require Import V.C47.Model V.C47.Proofs V.C47.Proofs2.
 Open Scope Z_scope.
 
 (* Over EVERY history of explicit / automatic creations (any class, any preface, any random-letter
@@ -71,6 +71,48 @@ Theorem clone_house_switch_no_collision : forall s f n0 n orc fd h a b c,
      exists extra, nth b (heap (fst (step s (Clone f (n0 :: n) orc)))) [] = (nth b (heap s) [] ++ [(n0 :: n, ninst s)]) ++ extra).
 Proof. exact clone_own_house. Qed.
 Print Assumptions clone_house_switch_no_collision.
+
+(* WELL-FORMEDNESS over all histories: the registry ids of all houses (3 each) and of all framers are
+   allocated heap indices, pairwise distinct, and distinct from the 5 import-time class registries;
+   and unless Framer.Clear() itself is called, Framer never gets a Names attribute of its own *)
+Theorem wf_all_histories : forall ops,
+  wf (run init ops) /\
+  (forallb not_clear_framer ops = true -> nms (attrs (run init ops) CFramer) = None).
+Proof. exact (fun ops => conj (proj1 (run_wf ops init init_wf)) (fun B => proj2 (run_wf ops init init_wf) B eq_refl)). Qed.
+Print Assumptions wf_all_histories.
+
+(* the three registries of a house are allocated and different objects, and the registries of two
+   different houses are disjoint: in every reachable state *)
+Theorem house_registries_distinct : forall ops,
+  let s := run init ops in
+  (forall h a b c, nth_error (houses s) h = Some (a, b, c) ->
+     (a < length (heap s))%nat /\ (b < length (heap s))%nat /\ (c < length (heap s))%nat /\
+     a <> b /\ b <> c /\ a <> c /\ (5 <= a)%nat /\ (5 <= b)%nat /\ (5 <= c)%nat) /\
+  (forall h1 h2 t1 t2, h1 <> h2 -> nth_error (houses s) h1 = Some t1 -> nth_error (houses s) h2 = Some t2 ->
+     forall x, In x [fst (fst t1); snd (fst t1); snd t1] -> ~ In x [fst (fst t2); snd (fst t2); snd t2]).
+Proof.
+  exact (fun ops => conj (fun h a b c => wf_house_ids _ h a b c (proj1 (run_wf ops init init_wf)))
+                         (fun h1 h2 t1 t2 => wf_houses_disjoint _ h1 h2 t1 t2 (proj1 (run_wf ops init init_wf)))).
+Qed.
+Print Assumptions house_registries_distinct.
+
+(* Framer.clone in every state reachable without Framer.Clear(): no premises left but the lookups *)
+Theorem clone_house_switch_no_collision_reachable : forall ops, forallb not_clear_framer ops = true ->
+  let s := run init ops in
+  forall f n0 n orc fd h a b c,
+  nth_error (framers s) f = Some fd -> nth_error (fhouse s) f = Some (Some h) -> nth_error (houses s) h = Some (a, b, c) ->
+  (dmemN (n0 :: n) (nth b (heap s) []) = true ->
+     snd (step s (Clone f (n0 :: n) orc)) = Some ErrClone /\ heap (fst (step s (Clone f (n0 :: n) orc))) = heap s) /\
+  (dmemN (n0 :: n) (nth b (heap s) []) = false ->
+     snd (step s (Clone f (n0 :: n) orc)) = Some (Ok (n0 :: n)) /\
+     exists extra, nth b (heap (fst (step s (Clone f (n0 :: n) orc)))) [] = (nth b (heap s) [] ++ [(n0 :: n, ninst s)]) ++ extra).
+Proof.
+  exact (fun ops B f n0 n orc fd h a b c Hf Hh Hs =>
+    clone_own_house _ f n0 n orc fd h a b c Hf Hh Hs
+      (proj2 (run_wf ops init init_wf) B eq_refl)
+      (proj1 (proj2 (wf_house_ids _ h a b c (proj1 (run_wf ops init init_wf)) Hs)))).
+Qed.
+Print Assumptions clone_house_switch_no_collision_reachable.
 
 Theorem suffix_loop_never_exhausted : forall s x, snd (step s x) <> Some OutOfFuel.
 Proof. exact step_no_fuel. Qed.
